@@ -51,6 +51,35 @@ STRENGTHENED = {
     "c19-2": "C19 missed it at first; an iterator behaviour returning gojq.NewIter over a list kept by the caller, and WithInputIter(gojq.NewIter(list...)) used twice over the same list, were added",
     "c05-2": "C05 missed it at first; programs evaluating one pattern under unsupported and supported flag sets in every order were added to the rerun-equality workload",
 }
+STRENGTHENED.update({
+    "c01-6": "C01 missed it at first; a value-sharing family was added: 14 bases x 20 pairs of derivations that extend, slice, update or delete from one base that stays reachable (the base and both results are emitted)",
+    "c02-6": "C02 missed it at first; invalid-path cases whose computed value is a scalar numerically close to the location's value (floats next to integers, integers beyond 2^53) were added, with the unoptimised and the optimised compilation pre-checked against each other",
+    "c02-7": "C02 missed it at first; path expressions whose operands contain their own forks (alternatives, try, limit, first, label/break inside index, slice, condition and argument positions) interleaved with path steps were added",
+    "c02-8": "C02 missed it at first; plain assignments in triples (a slice replacement by a shorter / equal / longer array followed by an index update and a read of the old tail) were added to the update/read-back check",
+    "c04-6": "C04 and C01 missed it at first; chained constant-path assignments with multi-output right-hand sides ((.a, .b) = (1, 2) | .c = .a and nested forms, 3 levels) were added to the near-constant path family",
+    "c04-7": "C04 missed it at first; float-literal keys (1.0, 2.0, -0.0, 1e0, 1.5) in direct index position on arrays, objects and null, plus a sixth fixed input with numeric-looking keys, were added",
+    "c05-6": "C05 missed it at first; a finished iterator is now kept and polled again while and after later runs of the same and of other Codes are in progress (stale handle), and the later runs are compared with runs alone",
+    "c05-7": "C05 missed it at first; programs over `builtins` (the whole list, its order, group_by name, index of fixed entries) were added to the rerun-equality workload",
+    "c05-8": "filed under C05 by its author, but it needs two goroutines: C06 catches it (29 racing cases); C05 is single-threaded by design",
+    "c06-6": "C06 missed it at first; the concurrent phase now starts on a freshly compiled Code (first use happens concurrently) and compares with tables computed from another Code",
+    "c06-8": "C06 missed it at first; a variables mode was added: all goroutines pass the same values slice (with spare capacity) to Run and the slice is checked afterwards",
+    "c07-6": "C07 missed it at first; cancellation with a cause (context.WithCancelCause directly, through a child context and through a deadline with a cause) was added: Next has to return the context's error",
+    "c08-6": "the author's patch did not apply any more after fix D30 touched the same switch; it was ported (same edit, new context line). C08 missed it at first (C02 caught it, 165 cases); a bounded-exhaustive family of path primitives with hostile path elements (13 elements, paths up to length 2, 25 single-path and 10 two-path forms, 6 inputs) was added: 2597 cases",
+    "c08-8": "C08 missed it at first; same family as c08-6 (the two-path delpaths forms mark a container and then fail on it): 554 cases",
+    "c09-6": "C09 missed it at first; ill-formed UTF-8 (lone continuation byte, invalid byte, overlong form, surrogate, truncated sequences) was added to the literal alphabet; such sources travel in hex",
+    "c10-7": "C10 missed it at first; new kind c10.passthrough: arrays of 2-8 literals through ~90 filters that only move, select, group or reorder elements, from input / variable / fromjson and through the command: every output number carries an input spelling, the array handed in is unchanged",
+    "c11-7": "C11 missed it at first; objects that differ in opposite directions under different keys (incl. the empty key) were added to the universe",
+    "c14-6": "C14 missed it at first; new kind c14.invalid-utf8: position laws (length, indices, slices, explode, test/match offsets) on subjects with ill-formed UTF-8",
+    "c15-7": "filed under C15 by its author; the --stream check of C16 catches it",
+    "c16-8": "C16 missed it at first; new kind c16.manyfiles: 90 and 300 input files in 12 input modes under a descriptor limit of 24/32, compared with the run without the limit and with the expected content order",
+    "c17-8": "C17 missed it at first; documents with mixed line terminators (LF, CRLF, lone CR in every combination before and after the fault) were added",
+    "c19-6": "C19 missed it at first; new kind c19.history: one Code run on an input and then on a list of others must give for each what a fresh Code gives (regular-expression programs over 408 subject/pattern/flags triples incl. colliding concatenations)",
+    "c19-8": "C19 missed it at first (C18 caught it, 702 cases); new kind c19.modvars: WithVariables names inside aliased / included / transitive modules",
+})
+# changes that were confirmed but are not violations of the property as given (both behaviours are accepted by the checks)
+NOT_A_VIOLATION = {
+    "c15-6": "after a malformed document in a file that is not the last one, the unchanged command goes on with the next file, the changed one stops. C16 says of a malformed document 'every complete value before it, then one error, then end of input' and C15 speaks of runtime errors of the query only; neither property decides whether the files named later are still read, so the checks accept both (DESIGN 9.2, 'not defects')",
+}
 OVERRIDE_NEEDS = {}
 
 
@@ -77,7 +106,7 @@ def main():
         ev = os.path.join(d, "eval.txt")
         if not os.path.exists(ev):
             continue
-        txt = open(ev).read()
+        txt = open(ev, errors="replace").read()
         prop = "C" + name[1:3]
         m = {
             "demo_unchanged": re.search(r"demo on unchanged tree: exit=(\d+)", txt),
@@ -114,6 +143,7 @@ def main():
             "caught_by": caught,
             "example_violation": (first.group(2)[:400] if first else ""),
             "strengthening": STRENGTHENED.get(name, ""),
+            "not_a_violation": NOT_A_VIOLATION.get(name, ""),
         }
         json.dump(meta, open(os.path.join(d, "meta.json"), "w"), indent=1)
         rows.append(meta)
@@ -127,8 +157,8 @@ def main():
         silent = sorted(k for k in m["checks_run"] if k not in m["caught_by"])
         out.append("| %s | %s | %s | %s | %s | %s | %s |" % (m["name"], m["property"], m["title"].replace("|", "\\|")[:160], "yes" if m["confirmed"] else "NO",
                                                         ", ".join("%s (%s)" % (k, m["checks_run"][k]["violations"]) for k in m["caught_by"]) or "**none**",
-                                                        ", ".join(silent) or "–", m["strengthening"] or "–"))
-    missed = [m["name"] for m in rows if m["confirmed"] and m["property"] not in m["caught_by"]]
+                                                        ", ".join(silent) or "–", m["strengthening"] or (("not a violation of the property as given: " + m["not_a_violation"]) if m["not_a_violation"] else "–")))
+    missed = [m["name"] for m in rows if m["confirmed"] and m["property"] not in m["caught_by"] and not m["not_a_violation"]]
     out += ["", "Changes not caught by the check of their own property: %s" % (", ".join(missed) or "none"), ""]
     open(os.path.join(ROOT, "SENSITIVITY.md"), "w").write("\n".join(out))
     print("%d seeded changes; missed by own property's check: %s" % (len(rows), missed))
